@@ -14,9 +14,11 @@
 //!     altogether.  Elements appended after the last one playback reads are not an "altered proof" (nothing they assert is read).
 //! Leaves are distinct 32-byte (sha256) / 48 / 64-byte values, already hashed (hash_leaves = false) as in the BMFF flow.
 //!
-//! Mutants caught (tools/mutant_run.sh C <diff> C16 quick):
-//!   /verif/mutants/C16-odd-node-self-hash.diff  (generate_tree hashes the unpaired node with itself instead of promoting it)
-//!   /verif/mutants/C16-proof-shortfall-accepted.diff (playback treats a missing proof element as "no sibling")
+//! Mutants caught (quick tier, patched scratch worktree, /verif/target-mut-C):
+//!   /verif/mutants/C16-odd-node-self-hash.diff       generate_tree hashes the unpaired node with itself instead of promoting it
+//!       -> "rejected-genuine genuine alg=… row=inner|root" (1595 cases)
+//!   /verif/mutants/C16-proof-shortfall-accepted.diff playback treats a missing proof element as "no sibling"
+//!       -> "accepted-forgery other-index alg=… row=inner|root" (and proof-element-removed / proof-dropped)
 
 use c2pa::{
     assertions::{MerkleMap, VecByteBuf},
